@@ -120,5 +120,10 @@ def declare(ctx):
         "to_nsq_throttle_count_partial: the ticker's AddInt64 and its capping StoreInt64 are not separated by a reader step "
         "(otherwise refuted: to_nsq_throttle_count_false); wall-clock reading: at most 1 + 2*elapsed/interval iterations",
         "to_nsq_exit_flushed_partial: no signal is taken (on SIGTERM the record in flight may reach only some producers: "
-        "to_nsq_exit_flushed_false, replayed as SIGTERM-WITNESS)",
+        "to_nsq_exit_flushed_false - its antecedent is exit status 0; the LOSS is reproduced on the real binary as "
+        "SIGTERM-WITNESS, where the harness accepts exit 0 (main returned) or 1 (log.Fatal of the reader's failed Publish): "
+        "the exit-0 run of the witness is not forced)",
+        "the to_nsq_loop_* theorems (all schedules) carry the hypothesis built into Model/ToNsqLoop that every Publish on a live "
+        "producer is acknowledged (the only publish error modelled there is ErrStopped after SIGTERM; refusing destinations: "
+        "Model/ToNsqRefuse)",
     ]
